@@ -20,6 +20,8 @@ import (
 	"time"
 
 	"github.com/deckhouse/deckhouse/pkg/log"
+	"k8s.io/apimachinery/pkg/apis/meta/v1/unstructured"
+	"k8s.io/apimachinery/pkg/runtime/schema"
 
 	"github.com/flant/shell-operator/pkg/app"
 	"github.com/flant/shell-operator/pkg/executor"
@@ -410,3 +412,33 @@ func (fx *fixture) tmpLeft() []string {
 	}
 	return out
 }
+
+// hookStorage is the real metric storage for hook metrics with a way to look into its registry.
+type hookStorage struct {
+	*metricstorage.MetricStorage
+}
+
+func newHookMetricStorage(ctx context.Context) *hookStorage {
+	return &hookStorage{metricstorage.NewMetricStorage(ctx, "", true, log.NewNop())}
+}
+
+func (h *hookStorage) has(name string) bool {
+	fams, _ := h.Gatherer.Gather()
+	for _, f := range fams {
+		if f.GetName() == name {
+			return true
+		}
+	}
+	return false
+}
+
+var cmGVR = schema.GroupVersionResource{Version: "v1", Resource: "configmaps"}
+
+func cmObj(ns, name string, ver int) *unstructured.Unstructured {
+	return &unstructured.Unstructured{Object: map[string]any{
+		"apiVersion": "v1", "kind": "ConfigMap",
+		"metadata": map[string]any{"name": name, "namespace": ns},
+		"data":     map[string]any{"v": fmt.Sprint(ver)},
+	}}
+}
+
